@@ -28,6 +28,13 @@ var (
 	jqLtR = []byte(`\u003c`)
 	jqQsR = []byte(`\u0027`)
 	jqZR  = []byte(`\u0000`)
+	// Prefix of the escape sequence of other control symbols.
+	jqCtlR = []byte(`\u00`)
+)
+
+const (
+	// Hex digits in lower case.
+	hexLo = "0123456789abcdef"
 )
 
 // JSON quote of string value - '"' + JSON escape + '"'.
@@ -123,6 +130,11 @@ func jsonEscape(b []byte, buf *bytebuf.Accumulative) *bytebuf.Accumulative {
 		}
 		if c == jqZ {
 			buf.Write(b[o:i]).Write(jqZR)
+			o = i + 1
+		}
+		if c < 0x20 && c != jqNl && c != jqCr && c != jqT && c != jqFf && c != jqBs && c != jqZ {
+			// Other control symbols must be escaped as well to get valid JSON string.
+			buf.Write(b[o:i]).Write(jqCtlR).WriteByte(hexLo[c>>4]).WriteByte(hexLo[c&15])
 			o = i + 1
 		}
 	}
